@@ -43,6 +43,8 @@ class C02(Check):
         cfg = calsim.gen_config(rng, rl_prob=0.2, extreme_prob=0.3, feature=calsim.SAMPLER_KINDS[i % 9])
         ops = [["calibrate", rng.randint(1, 4)] for _ in range(rng.randint(1, 4))]
         if rng.random() < 0.15:
+            ops.insert(rng.randrange(0, len(ops) + 1), ["calibrate", 0])       # "give me the results so far"
+        if rng.random() < 0.15:
             calsim.make_scripted_convergence(cfg, rng)
         elif rng.random() < 0.25:
             cfg["model"]["mutates"] = True          # the model writes into the parameter array it receives
